@@ -19,6 +19,12 @@ chain of three, medium domains, full cross product), `deep` and `deeper` (<= 4..
 <= 4, full domains, but the total number of non-default attributes along the history is <= K;
 the default step is "append a 4-byte image").  When two histories of different weight reach the
 same state the smaller weight is kept, so every history inside the bound is expanded.
+`relocate` (<= 4 images, depth <= 3, small construction alphabet) adds steps that assign a public
+attribute of an *existing* image - `img.offset = v` (relocation after insertion, which leaves the
+parent's list unsorted), `img.size = v`, `img.binary = data` - with at most R such steps per
+history (R = 1 quick, 2 thorough); there the state keeps the actual list order of the sub-images
+and `C16.children-sorted` is judged only for parents none of whose sub-images was relocated,
+while validate/len/export/lookup/join must be right whatever the list order.
 
 On every reached state: structure (offsets chosen by append, ordering), len() of every image,
 validate() verdict vs. the layout predicate, export() length and bytes, every sub-image's own
@@ -69,10 +75,18 @@ ROOT_DEFAULT = (0, 0, 1, 0, None)  # (mode/offset, size, alignment, binary lengt
 STEP_DEFAULT = ("app", 0, 1, 4, None)
 
 
-def _space(name, root, step, nodes, depth, kroot, kids, weight, files, big_base):
+def _space(name, root, step, nodes, depth, kroot, kids, weight, files, big_base, mut=None):
+    """mut: None, or {"offset": values, "size": values, "binary": lengths} = the attribute
+    assignments on an *existing* image that are steps of this space.  In such a space every
+    construction step weighs 0, every assignment weighs 1 and `weight` bounds the number of
+    assignments in a history."""
     return {"name": name, "root": root, "step": step, "max_nodes": nodes, "max_depth": depth,
             "max_children_root": kroot, "max_children": kids, "weight": weight, "files": files,
-            "big_base": big_base}
+            "big_base": big_base, "mut": mut}
+
+
+RELOC_ROOT = ((0,), (0, 12), (1,), (0,), (None,))
+RELOC_STEP = (("app", 0, 4, 8), (0, 5), (1,), (4,), (None,))
 
 
 def spaces(tier: str) -> list[dict]:
@@ -85,8 +99,10 @@ def spaces(tier: str) -> list[dict]:
             _space("deeper", full_root, full_step, 5, 4, 3, 2, 2, True, True),
             _space("deep", ((0,), (0, 4, 5, 12), (1, 4), (0, 4, 6), (None, "0xA5", "inc")),
                    (MODES, (0, 4, 5, 12), (1, 4), (0, 4, 6), (None, "0xA5", "inc")), 4, 4, 3, 2, 3, False, True),
-            _space("siblings", ((0,), (0, 5, 12), (1, 4), (0,), (None, "0xA5")),
+            _space("siblings", ((0,), (0, 12), (1, 4), (0,), (None, "0xA5")),
                    (MODES, (0, 4, 5), (1, 4), (0, 4), (None, "0xA5")), 3, 3, 3, 2, None, False, False),
+            _space("relocate", RELOC_ROOT, RELOC_STEP, 4, 3, 3, 2, 1, False, False,
+                   mut={"offset": (0, 1, 3, 4, 8), "size": (0, 4, 12), "binary": (0, 6)}),
         ]
     return [
         _space("wide", full_root, full_step, 2, 2, 3, 2, None, True, True),
@@ -94,6 +110,8 @@ def spaces(tier: str) -> list[dict]:
         _space("deeper", full_root, full_step, 6, 4, 3, 2, 2, False, False),
         _space("siblings", ((0,), (0, 5, 12), (1, 4), (0, 6), (None, "0xA5", "inc")),
                (MODES, SIZES, (1, 4), BINS, (None, "0xA5")), 3, 3, 3, 2, None, False, False),
+        _space("relocate", RELOC_ROOT, RELOC_STEP, 4, 3, 3, 2, 2, False, False,
+               mut={"offset": (0, 1, 3, 4, 8), "size": (0, 4, 12), "binary": (0, 6)}),
     ]
 
 
@@ -118,6 +136,11 @@ def _prepare(sp: dict) -> dict:
     sp = dict(sp)
     sp["root_alpha"] = alphabet(sp["root"], ROOT_DEFAULT)
     sp["step_alpha"] = alphabet(sp["step"], STEP_DEFAULT)
+    sp["mut_alpha"] = []
+    if sp.get("mut"):
+        sp["root_alpha"] = [(t, 0) for t, _ in sp["root_alpha"]]
+        sp["step_alpha"] = [(t, 0) for t, _ in sp["step_alpha"]]
+        sp["mut_alpha"] = [(attr, v) for attr in ("offset", "size", "binary") for v in sp["mut"].get(attr, ())]
     return sp
 
 
@@ -159,7 +182,7 @@ def content(seed: int, depth: int, attrs: tuple) -> Optional[bytes]:
 
 
 class Built:
-    __slots__ = ("inodes", "mnodes", "depths", "rejected")
+    __slots__ = ("inodes", "mnodes", "depths", "rejected", "parents", "dirty")
 
 
 def build(hist: list, seed: int) -> Built:
@@ -170,7 +193,30 @@ def build(hist: list, seed: int) -> Built:
 
     b = Built()
     b.inodes, b.mnodes, b.depths, b.rejected = [], [], [], None
-    for k, st in enumerate(hist):
+    b.parents = []  # node id -> parent node id
+    b.dirty = set()  # ids of images one of whose sub-images was relocated after its insertion
+    for idx, st in enumerate(hist):
+        if st[0] == "set":
+            # attribute assignment on an existing image: ["set", node id, attribute, value]
+            _, nid, attr, val = st
+            img, node = b.inodes[nid], b.mnodes[nid]
+            try:
+                if attr == "offset":
+                    img.offset = val
+                    node.offset = val
+                    b.dirty.add(b.parents[nid])
+                elif attr == "size":
+                    img.size = val
+                    node.size = val
+                else:
+                    data = content(seed, b.depths[nid], ("set", 0, 0, val, None))
+                    img.binary = data
+                    node.binary = data
+            except SPSDKError as e:
+                b.rejected = f"step {idx}: {type(e).__name__}: {e}"
+                return b
+            continue
+        k = len(b.inodes)
         pid, mode, size, al, blen, pat = st
         depth = 1 if k == 0 else b.depths[pid] + 1
         data = content(seed, depth, (mode, size, al, blen, pat))
@@ -183,7 +229,7 @@ def build(hist: list, seed: int) -> Built:
                 else:
                     b.inodes[pid].add_image(img)
         except SPSDKError as e:
-            b.rejected = f"step {k}: {type(e).__name__}: {e}"
+            b.rejected = f"step {idx}: {type(e).__name__}: {e}"
             return b
         node = M.Node(off, size, al, data, pat, tag=k)
         if k:
@@ -194,6 +240,7 @@ def build(hist: list, seed: int) -> Built:
         b.inodes.append(img)
         b.mnodes.append(node)
         b.depths.append(depth)
+        b.parents.append(pid if k else -1)
     return b
 
 
@@ -207,6 +254,17 @@ def icanon(img) -> tuple:
     return (img.offset, img._size, img.alignment, img.binary or b"",
             "" if p is None else _PAT_NAME.get(id(p), "?"),
             tuple(sorted(icanon(c) for c in img.sub_images)))
+
+
+def icanon_ordered(img) -> tuple:
+    """Like icanon but keeping the actual list order of the sub-images.  Used as the state in
+    spaces with relocation steps: there the list order is no longer a function of the offsets, and
+    the property has to hold whatever the order, so two trees that differ only in list order are
+    different states (both get expanded)."""
+    p = img.pattern
+    return (img.offset, img._size, img.alignment, img.binary or b"",
+            "" if p is None else _PAT_NAME.get(id(p), "?"),
+            tuple(icanon_ordered(c) for c in img.sub_images))
 
 
 def chash(canon: tuple) -> int:
@@ -248,12 +306,15 @@ def observe_core(b: Built, V: list, C: dict, label: str = "") -> dict:
 
     iroot, mroot = b.inodes[0], b.mnodes[0]
     ic = icanon(iroot)
+    ordered = icanon_ordered(iroot)
     mc = M.canon(mroot)
     if ic != mc:
         V.append(("C16.state", label + _first_diff(ic, mc), f"impl {ic!r} model {mc!r}"))
     for k, img in enumerate(b.inodes):
         offs = [c.offset for c in img.sub_images]
-        if any(x > y for x, y in zip(offs, offs[1:])):
+        # ordering is promised by add_image at insertion time only: once a sub-image of this
+        # image was relocated through its public `offset`, the list order is not judged any more
+        if k not in b.dirty and any(x > y for x, y in zip(offs, offs[1:])):
             V.append(("C16.children-sorted", label + "unsorted", f"node {k}: offsets {offs}"))
         if any(c.parent is not img for c in img.sub_images):
             V.append(("C16.state", label + "parent-pointer", f"node {k}"))
@@ -286,7 +347,7 @@ def observe_core(b: Built, V: list, C: dict, label: str = "") -> dict:
         else:
             V.append(("C16.validate-iff", label + "spurious:" + why, "validate() raised on a legal layout"))
     legal = not errs
-    facts = {"legal": legal, "over": bool(over), "canon": ic, "export": None}
+    facts = {"legal": legal, "over": bool(over), "canon": ic, "ordered": ordered, "export": None}
     if not legal:
         C["illegal_layouts"] = C.get("illegal_layouts", 0) + 1
         return facts
@@ -641,6 +702,10 @@ def _explicit(sp: dict, codes) -> list:
     ra = sp["root_alpha"][codes[0]][0]
     hist = [[0, ra[0], ra[1], ra[2], ra[3], ra[4]]]
     for i in range(1, len(codes), 2):
+        if codes[i] < 0:  # attribute assignment on node -(code+1)
+            attr, val = sp["mut_alpha"][codes[i + 1]]
+            hist.append(["set", -codes[i] - 1, attr, val])
+            continue
         a = sp["step_alpha"][codes[i + 1]][0]
         hist.append([codes[i], a[0], a[1], a[2], a[3], a[4]])
     return hist
@@ -650,11 +715,15 @@ def _attach_points(sp: dict, hist: list) -> list[int]:
     depth = [1]
     kids = [0]
     for st in hist[1:]:
+        if st[0] == "set":
+            continue
         depth.append(depth[st[0]] + 1)
         kids.append(0)
         kids[st[0]] += 1
     out = []
-    for k in range(len(hist)):
+    if len(depth) >= sp["max_nodes"]:
+        return out
+    for k in range(len(depth)):
         lim = sp["max_children_root"] if k == 0 else sp["max_children"]
         if kids[k] < lim and depth[k] < sp["max_depth"]:
             out.append(k)
@@ -684,6 +753,13 @@ def w_expand(task: Any) -> dict:
                     if K is not None and used + w > K:
                         break  # alphabet is sorted by weight
                     moves.append(((pid,), i, w))
+            if sp["mut_alpha"] and used + 1 <= K:
+                nnodes = sum(1 for st in hist0 if st[0] != "set")
+                for nid in range(nnodes):
+                    for i, (attr, _) in enumerate(sp["mut_alpha"]):
+                        if nid == 0 and attr == "offset":
+                            continue  # the root's offset is the base address (varied by the observers)
+                        moves.append(((-nid - 1,), i, 1))
         for pre, aidx, w in moves:
             ncodes = tuple(codes) + pre + (aidx,)
             hist = _explicit(sp, ncodes)
@@ -695,7 +771,8 @@ def w_expand(task: Any) -> dict:
                 V[j] = (V[j][0], V[j][1], V[j][2], hist)
             if facts.get("rejected"):
                 continue
-            h = (chash(facts["canon"]) << 1) | (1 if facts["legal"] and not facts["over"] else 0)
+            key = facts["canon"] if not sp["mut_alpha"] else facts["ordered"]
+            h = (chash(key) << 1) | (1 if facts["legal"] and not facts["over"] else 0)
             if need_hist:
                 succ.append((h, ncodes, used + w))
             else:
@@ -977,14 +1054,22 @@ def run(ctx: core.Ctx) -> None:
                "domains": {"root": sp["root"], "step": sp["step"]}, "completed_levels": 0}
         tables[name] = tab
         frontier = [((), 0)]
-        for level in range(1, sp["max_nodes"] + 1):
-            if tot["stop"]:
+        # a level = all histories of that length; without assignment steps that is the number of
+        # images, with them a history has up to max_nodes constructions + `weight` assignments
+        max_level = sp["max_nodes"] + (sp["weight"] if sp["mut_alpha"] else 0)
+        tab["max_history_length"] = max_level
+        tab["assignment_alphabet"] = [list(x) for x in sp["mut_alpha"]]
+        seen_space: set = set()  # states of earlier levels (only needed with assignment steps)
+        for level in range(1, max_level + 1):
+            if tot["stop"] or not frontier:
                 break
-            last = level == sp["max_nodes"]
+            last = level == max_level
             need_hist = (not last) or sp["files"]
             # task sizing: ~3000 transitions per task
             if level == 1:
                 fan = len(sp["root_alpha"])
+            elif sp["mut_alpha"]:
+                fan = (level - 1) * (len(sp["step_alpha"]) + len(sp["mut_alpha"]))
             else:
                 fan = max(1, (level - 1) * len(sp["step_alpha"]) // (1 if sp["weight"] is None else 8))
             chunk = max(1, min(256, 3000 // max(1, fan)))
@@ -1007,6 +1092,8 @@ def run(ctx: core.Ctx) -> None:
                 tot["traces"] += res["traces"]
                 if need_hist:
                     for h, codes, w in res["succ"]:
+                        if h in seen_space:
+                            continue  # reached before by a shorter history (fewer assignments used)
                         cur = new.get(h)
                         if cur is None:
                             new[h] = [codes, w]
@@ -1022,7 +1109,10 @@ def run(ctx: core.Ctx) -> None:
                     break
             tot["trans"] += lvl_trans
             legal = sum(1 for h in lvl_hashes if h & 1)
-            tab["levels"].append({"images": level, "states_expanded": len(frontier), "transitions": lvl_trans,
+            if sp["mut_alpha"]:
+                seen_space.update(lvl_hashes)
+            tab["levels"].append({"images": None if sp["mut_alpha"] else level, "history_length": level,
+                                  "states_expanded": len(frontier), "transitions": lvl_trans,
                                   "distinct_states": len(lvl_hashes), "distinct_legal_states": legal, "complete": done})
             all_states.update(lvl_hashes)
             del lvl_hashes
@@ -1102,7 +1192,8 @@ def run(ctx: core.Ctx) -> None:
         "add_image@offset | append_image, size, alignment, own binary length, pattern); every distinct canonical tree of a "
         "level is expanded with every step of the space's alphabet at every attach point (children <= 3 at the root, <= 2 "
         "elsewhere; depth bound per space); 'wide' and 'siblings' take the full cross product of their domains, 'deep'/'deeper' all "
-        "histories with <= K non-default attributes in total.  A case is distinct when its canonical tree (offsets, "
+        "histories with <= K non-default attributes in total, 'relocate' additionally takes <= R assignments of offset / size / "
+        "binary to an existing image anywhere in the history.  A case is distinct when its canonical tree (offsets, "
         "reported explicit sizes, alignments, binaries, patterns, children sorted) was not reached before; non-trivial = "
         "every counted state was built on real objects and compared with the model (len of every image, validate verdict, "
         "and for legal layouts export bytes, address lookups, join, update_offsets); evaluations = executed traces "
@@ -1151,7 +1242,7 @@ def replay(ctx: core.Ctx, rec: dict) -> bool:
         V = [(v[0], v[1], v[2]) for v in res["viol"]]
         _cleanup_tmp()
     else:
-        hist = [[s[0], s[1], s[2], s[3], s[4], s[5]] for s in case["hist"]]
+        hist = [list(s) for s in case["hist"]]
         eval_history(hist, seed, True, V, C)
         if rec["clause"].startswith("C16.file"):
             eval_files(hist, seed, V, C, BASES_FILE_THOROUGH)
